@@ -704,6 +704,10 @@ func (c *Compiler) writeNode(node, parent *node, recv, v, vsrc string, depth int
 					if !ch.ptr {
 						pfx = "&" + pfx
 					}
+					if ch.ptr {
+						// Nothing to assign to behind a nil pointer (as for pointer elements of maps and slices).
+						c.wl("if ", v, ".", ch.name, " == nil { return nil }")
+					}
 					if mode == modeSet {
 						c.wl("inspector.AssignBuf(", pfx, v, ".", ch.name, ", value, buf)")
 					}
